@@ -266,6 +266,9 @@ def cases(tier, seed):
               {"exact": 0, "strict": 0, "df": 0, "yf": 0, "tz": None}):
         for w in WITNESSES:      # one case per witness: every listed finding is the first failure of some case
             out.append({"stream": "witnesses", "fn": "given", "args": [[w]], "opts": o})
+    # strict=False + day_first=True: the backends' ISO parsers disagree on lenient text and day_first is applied by one of them only
+    for w in ("79760906\n", "92\u06637\u0660208"):
+        out.append({"stream": "witnesses", "fn": "given", "args": [[w]], "opts": {"exact": 1, "strict": 0, "df": 1, "yf": 1, "tz": None}})
     return out
 
 
@@ -276,7 +279,8 @@ WITNESSES = ["2:", "2::30", "2:.5", "2021 2:", "20210102 3:", "2021-01-01/P1D", 
              "0001-01-01T00:00:00+01:00/0001-01-02T00:00:00+01:00", "9999-12-31T23:00:00-02:00/9999-12-31T23:30:00-02:00", "2021-01-01T00:00:00/P9999Y",
              "235959", "012345", "T12:27:38", "2021-W00-1", "2021-W01-0", "P1.25D", "PT1.9999999S", "P1.1W", "P0D1Y", "now", "", "P", "PT", "2021-01-01\n", "P1D\n",
              "٢٠٢١-01-01", "2021/01/0١", "99999999999999999999", "1" * 30, "10:99:99999999999999999999", "Jan 5 2021", "5 Jan", "tomorrow",
-             "2021-01-02T03:04:05", "2021-01-02 03:04:05", "2021-01-02T03:04:05.123456789+05:45", "2021-01-2", "2021-0102", "202101-02", "12", "2021-W011", "2021W01-1"]
+             "2021-01-02T03:04:05", "2021-01-02 03:04:05", "2021-01-02T03:04:05.123456789+05:45", "2021-01-2", "2021-0102", "202101-02", "12", "2021-W011", "2021W01-1",
+             "79760906\n", "2021-01-01T00:00:00.4294967296", "12:00:00.99999999999"]
 
 
 def search_cases(seed):
@@ -524,6 +528,9 @@ def _py_key(c):
 _PY_RES = {}
 
 
+_RX_SEC_FRAC = re.compile(r"(?:[0-9]{2}:[0-9]{2}:[0-9]{2}|[T ][0-9]{6})[.,]([0-9]+)(?:Z|[+-][0-9]{2}(?::?[0-9]{2})?)?\Z")
+
+
 def _failures(c, backend, r):
     """[(why, finding id or None)] over the items of the batch"""
     out = []
@@ -555,6 +562,11 @@ def _failures(c, backend, r):
         w = _check_wrap(s, res, backend)
         if w:
             out.append((f"{tag}: {w[0]}", w[1]))
+            continue
+        # 3b. no wrapped numbers in a seconds fraction of any length: the microsecond is the first six fraction digits (extra digits truncated)
+        mf = _RX_SEC_FRAC.search(s) if (o["strict"] and res[0] == 0 and res[1] in (1, 3) and "/" not in s) else None
+        if mf and res[8] != int((mf.group(1) + "000000")[:6]):
+            out.append((f"{tag}: microsecond {res[8]} is not the first six digits of the fraction .{mf.group(1)[:40]} (a wrapped or mis-scaled number)", None))
             continue
         # 4. strict=True accepts only the three grammars
         if o["strict"] and res[0] == 0 and s != "now" and not in_grammar(s):
@@ -696,6 +708,12 @@ def _classify_disagree(s, o, item, oitem):
     # strict=False: one backend rejected the text and handed it to dateutil, the other parsed it itself
     if not o["strict"] and len(item) == 2 and len(oitem) == 2 and item[1][0] == 0 and (item[0] == item[1] or oitem[0] == oitem[1]):
         return "backends-differ-dateutil-fallback"
+    # day_first=True on text that only ONE backend's ISO parser accepts (pure Python: Unicode digits, a final newline -- finding strict-lenient-python-regex):
+    # that backend reads YYYYMMDD, the other rejects the text and COMMON / dateutil apply day_first, so month and day come back swapped
+    r_rs, r_py = item[0], oitem[0]
+    if o["df"] and not in_grammar(s) and r_rs[0] == 0 and r_py[0] == 0 and r_rs[1] in (1, 2) and r_py[1] in (1, 2) \
+            and r_rs[2] == r_py[2] and r_rs[3] == r_py[4] and r_rs[4] == r_py[3] and r_rs[5:9] == r_py[5:9]:
+        return "backends-differ-day-first-on-lenient-text"
     # YYYY/MMDD: the pure-Python parser reads two year-only dates (an interval), the compiled parser rejects a bare year and COMMON reads a date
     if re.match(r"\d{4}/\d{4}\n?\Z", s):
         return "backends-differ-interval-vs-common"
